@@ -233,3 +233,62 @@ def exhaustive_machine_corpus(m, classes, length, seed, n_sym=3):
                 for h in itertools.product(ops, repeat=ln):
                     bag_cases.append({'type': k, 'ops': [list(o) for o in h]})
     return seq_cases, bag_cases
+
+
+def search_near(m, seeds, sweep, seed, per_seed=400):
+    """A correspondence with the model broke on these (type, ops) prefixes.  Search their neighbourhood - the diverging prefix
+    extended by every short list of adds and by random short continuations, each closed by a final check - for a history on which the
+    PROPERTY itself fails in a way the pinned model does not predict.  Returns [(case, op index, what)] shortest first."""
+    import itertools
+    rng = random.Random(seed * 17 + 3)
+    cases = []
+    for typ, ops in seeds:
+        alpha = rx.alphabet(m.g['templates'][typ])
+        bases = [list(ops)]
+        stripped = list(ops)
+        while stripped and stripped[-1][0] == 'f':
+            stripped = stripped[:-1]
+        if stripped != bases[0]:
+            bases.append(stripped)
+        exts = [[]]
+        depth = 1
+        while depth < 3 and len(alpha) ** (depth + 1) <= per_seed // 2:
+            depth += 1
+        for d in range(1, depth + 1):
+            for w in itertools.product(alpha, repeat=d):
+                exts.append([['a', x] for x in w])
+        for _ in range(per_seed // 2):
+            e = []
+            for _ in range(rng.randint(1, 5)):
+                x = rng.random()
+                e.append(['a', rng.choice(alpha)] if x < 0.75 else ['r', rng.randint(0, 2)] if x < 0.9 else ['q', rng.randint(0, 2)])
+            exts.append(e)
+        for b in bases:
+            for e in exts:
+                cases.append({'type': typ, 'ops': b + e + [['f', 0], ['f', 1]]})
+    if not cases:
+        return [], 0
+    io, mo = run_both(m, cases)
+    found = [(cases[ci], oi, what) for ci, oi, what, pred in sweep(m, cases, io, mo) if not pred]
+    found.sort(key=lambda f: f[1])
+    return found, len(cases)
+
+
+def report_broken_correspondence(rep, m, seeds, sweep, label, details):
+    """seeds: [(type, ops prefix)] where implementation and model diverge; details: one replay dict per seed"""
+    found, n = search_near(m, seeds, sweep, rep.seed)
+    rep.coverage['neighbourhood_search_histories'] = rep.coverage.get('neighbourhood_search_histories', 0) + n
+    if found:
+        seen = set()
+        for case, oi, what in found:
+            if case['type'] in seen:
+                continue
+            seen.add(case['type'])
+            rep.violation('%s: %s (found by searching around a history where the %s correspondence broke)' % (case['type'], what, label),
+                          {'type': case['type'], 'ops': case['ops'][:oi + 1], 'why': what, 'model_predicts': False, 'correspondence': label})
+            if len(seen) >= 3:
+                break
+    else:
+        for (typ, ops), d in list(zip(seeds, details))[:3]:
+            rep.violation('implementation and model disagree on %s (%s); no history violating the property was found among %d neighbours' % (typ, label, n),
+                          dict(d, correspondence=label, type=typ, ops=ops), found_input=False)
